@@ -295,6 +295,12 @@ func TestVerifEngineChild(t *testing.T) {
 		}
 		sort.Strings(rep.Notes)
 		rep.Ran = true
+	case "session":
+		// several runs on this one Project, edits in between, no fresh load (zz_verif_engine5_test.go)
+		if msg := sessionChild(proj, root, rec); msg != "" {
+			rep.RunErr = msg
+		}
+		rep.Ran = true
 	case "dry+straggler":
 		// a dry run whose Run call returns (with an error) while another target is still being evaluated: whatever that
 		// target does afterwards still belongs to the dry run
